@@ -65,6 +65,18 @@ CHECKS.update({
          "Target list fixed in the harness; element-typed targets get decoder-shaped elements.", "5/C14"),
 })
 
+CHECKS.update({
+ "C15": ("conv", "reference-model monitor: QoS rule / flow-description (de)serialiser vs. a reference written from TS 24.501 9.11.4.12/13; totality sweep of short strings",
+         "Generated well-formed lists (all operations, 0..15 filters, all 18 component types, 0..63 parameters of 7 kinds) must serialise to the reference bytes and parse back equal; lists with one undefined identifier must be rejected; every byte string of <= 2 (thorough 3) octets and mutated serialisations must not panic.",
+         "Reference layout in /verif; delete-rule precedence/QFI octets taken as emitted.", "5/C15"),
+ "C16": ("conv", "law + reference monitor: PCO marshal/unmarshal round trip and offset-exact parse check; exhaustive PSI bitmap sweep",
+         "PCO lists of 0..20 units round-trip with the 0x80 first octet; every unit of a nil-error parse is exactly what the input holds at its offset; all byte strings of <= 2 (thorough 3) octets; all 65 536 PDU session bitmaps both ways.",
+         "LengthOfContents = len(Contents) in well-formed lists.", "5/C16"),
+ "C17": ("conv", "reference-model monitor with exhaustive domains: timer ladders, AMBR table, zone×DST grid, time stamps, GSM 7-bit names, each decoded by independent code",
+         "Every duration of both GPRS timer ranges, all 65 536×5×2 AMBR combinations, all 159×3 zone/DST combinations within ±19:45, every name length 0..64 (full and short), time stamps at second resolution on sampled days and hourly over the century in fixed and tz-database zones. Exhaustive except for time stamps and name contents.",
+         "TS 24.008 / TS 24.501 / TS 23.040 / TS 23.038 decoders in /verif; tz database via time/tzdata.", "5/C17"),
+})
+
 NOT_YET = {
 }
 
